@@ -102,7 +102,9 @@ def numeric_strings(rng, n):
     return list(dict.fromkeys(out))
 
 
-PI_RADIX = ["", "undefined", "0", "2", "8", "10", "16", "36", "37", "1", "-1", "NaN", '"16"', "10.5", "Infinity", "null"]
+PI_RADIX = ["", "undefined", "0", "2", "8", "10", "16", "36", "37", "1", "-1", "NaN", '"16"', "10.5", "Infinity", "null",
+            # the radix goes through ToInt32: values that wrap into (and out of) 2..36, fractions, other types
+            "4294967296", "4294967298", "4294967312", "4294967333", "-4294967294", "-4294967280", "8589934608", "2147483650", "1e300", "-1e300", '"4294967298"', "16.9", "36.9", "1.9", "-0", "true", "[16]", "-Infinity", "4294967295"]
 
 
 def parse_progs(strs):
